@@ -784,8 +784,7 @@ func (rles RLEs) Partition(blockSize Point3d) (BlockRLEs, error) {
 func (rles RLEs) FitToBounds(bounds *OptionalBounds) RLEs {
 	newRLEs := make(RLEs, 0, len(rles))
 	if bounds == nil {
-		copy(newRLEs, rles)
-		return newRLEs
+		return append(newRLEs, rles...)
 	}
 	for _, rle := range rles {
 		if bounds.minz != nil && rle.start[2] < *(bounds.minz) {
